@@ -150,3 +150,15 @@ def c14(ctx):
 @handler("C15")
 def c15(ctx):
     return star_helpers(ctx, "strops", "StrOpsTrace")
+
+
+@handler("C18")
+def c18(ctx):
+    return seq_container(ctx, "callcount", "CallCountTrace", [("CallCountMC", "CallCountMC.cfg")],
+                         depth=dict(quick=0, thorough=0), shards=1)
+
+
+@handler("C16")
+def c16(ctx):
+    return seq_container(ctx, "frame", "FrameTrace", [("FrameMC", "FrameMC.cfg")],
+                         depth=dict(quick=2, thorough=3), shards=12)
